@@ -881,7 +881,7 @@ def shaped(ex, st, v, what='container'):
     return o
 
 
-@model(r'^Vec(?:::<.*>)?::(new|with_capacity|push|len|is_empty|pop|clear|iter|iter_mut|as_slice|first|last|get|extend_from_slice|truncate|insert|remove|contains|reserve|into_boxed_slice|as_mut_slice|sort_unstable|sort|dedup|swap_remove|drain|retain|append|split_off|first_mut|last_mut)$|^std::vec::Vec(?:::<.*>)?::(new|with_capacity)$|^core::slice::<impl \[.*\]>::(iter|iter_mut|len|is_empty|first|last|get|contains|to_vec|into_vec|sort_unstable|sort|split_first|split_last|concat)$|^std::slice::<impl \[.*\]>::(to_vec|into_vec|concat|sort|sort_unstable)$|^<\[.*\] as ToOwned>::to_owned$')
+@model(r'^(std::collections::)?VecDeque(?:::<.*>)?::(new|with_capacity|push_back|push_front|pop_front|pop_back|len|is_empty|front|back|front_mut|back_mut|iter|iter_mut|clear|get|contains)$|^Vec(?:::<.*>)?::(new|with_capacity|push|len|is_empty|pop|clear|iter|iter_mut|as_slice|first|last|get|extend_from_slice|truncate|insert|remove|contains|reserve|into_boxed_slice|as_mut_slice|sort_unstable|sort|dedup|swap_remove|drain|retain|append|split_off|first_mut|last_mut)$|^std::vec::Vec(?:::<.*>)?::(new|with_capacity)$|^core::slice::<impl \[.*\]>::(iter|iter_mut|len|is_empty|first|last|get|contains|to_vec|into_vec|sort_unstable|sort|split_first|split_last|concat)$|^std::slice::<impl \[.*\]>::(to_vec|into_vec|concat|sort|sort_unstable)$|^<\[.*\] as ToOwned>::to_owned$')
 def m_vec(ctx):
     ex, st = ctx.ex, ctx.st
     op = ctx.callee.rsplit('::', 1)[1]
@@ -896,8 +896,17 @@ def m_vec(ctx):
         return None
     v = shaped(ex, st, ctx.args[0], 'Vec')
     items = v.attrs['items']
-    if op == 'push':
+    if op in ('push', 'push_back'):
         items.append(ctx.args[1]); return [(None, ())]
+    if op == 'push_front':
+        items.insert(0, ctx.args[1]); return [(None, ())]
+    if op == 'pop_front':
+        return [(None, some(items.pop(0)) if items else none())]
+    if op == 'pop_back':
+        return [(None, some(items.pop()) if items else none())]
+    if op in ('front', 'front_mut', 'back', 'back_mut'):
+        if not items: return [(None, none())]
+        return [(None, some(Ref(('elem', v, 0 if op.startswith('front') else len(items) - 1))))]
     if op == 'len':
         return [(None, z3.BitVecVal(len(items) * v.attrs.get('bytes_per_item', 1), 64))]
     if op == 'is_empty':
@@ -1321,6 +1330,57 @@ def m_map(ctx):
         if 'values' in op: it.attrs['sel'] = 'values'
         return [(None, it)]
     return None
+
+
+@model(r'^(std::collections::)?(hash_map::|btree_map::|indexmap::map::)?(HashMap|BTreeMap|IndexMap)(?:::<.*>)?::entry$')
+def m_map_entry(ctx):
+    ex, st = ctx.ex, ctx.st
+    m = shaped(ex, st, ctx.args[0], 'map')
+    key = ctx.args[1]
+
+    def occ(s2, idx):
+        e = Obj('Entry', kind='entry'); e.discr = 'Occupied'; e.attrs['map'] = s2.tr(m); e.attrs['idx'] = idx; e.attrs['key'] = s2.tr(key)
+        return e
+
+    def vac(s2):
+        e = Obj('Entry', kind='entry'); e.discr = 'Vacant'; e.attrs['map'] = s2.tr(m); e.attrs['idx'] = None; e.attrs['key'] = s2.tr(key)
+        return e
+    return map_lookup_alts(ex, st, m, key, occ, vac)
+
+
+@model(r'Entry<.*>::(and_modify|or_insert|or_default|or_insert_with|or_insert_with_key|key)(::<.*>)?$|Entry::(and_modify|or_insert|or_default|or_insert_with)(::<.*>)?$')
+def m_entry_ops(ctx):
+    ex, st = ctx.ex, ctx.st
+    op = re.search(r'::(and_modify|or_insert_with_key|or_insert_with|or_insert|or_default|key)(::<.*>)?$', ctx.callee).group(1)
+    e = ex.deref_val(st, ctx.args[0])
+    if not isinstance(e, Obj) or e.kind != 'entry':
+        raise MirError(f'Entry op on {e!r}')
+    mp = e.attrs['map']
+    if op == 'and_modify':
+        if e.discr == 'Occupied':
+            ex.call_closure(st, ctx.args[1], [Ref(('mapkv', mp, e.attrs['idx'], 1))], ctx.dest, ctx.nxt, Cont('wrap', mode='discard', orig=e))
+            return PUSHED
+        return [(None, e)]
+    if op in ('or_insert', 'or_default'):
+        if e.discr == 'Vacant':
+            val = ctx.args[1] if op == 'or_insert' else default_value(ex, st, re.sub(r"^&('\w+ )?mut ", '', ctx.ret_ty.strip()))
+            mp.attrs['items'].append((e.attrs['key'], val)); e.attrs['idx'] = len(mp.attrs['items']) - 1; e.discr = 'Occupied'
+        return [(None, Ref(('mapkv', mp, e.attrs['idx'], 1)))]
+    if op == 'or_insert_with':
+        if e.discr == 'Vacant':
+            ex.call_closure(st, ctx.args[1], [], ctx.dest, ctx.nxt, Cont('entry_insert', entry=e))
+            return PUSHED
+        return [(None, Ref(('mapkv', mp, e.attrs['idx'], 1)))]
+    raise MirError('Entry::' + op)
+
+
+def _resume_entry_insert(ex, st, cont, rv, work):
+    e = cont.data['entry']; mp = e.attrs['map']
+    mp.attrs['items'].append((e.attrs['key'], rv)); e.attrs['idx'] = len(mp.attrs['items']) - 1; e.discr = 'Occupied'
+    return 'value', Ref(('mapkv', mp, e.attrs['idx'], 1))
+
+
+RESUMERS['entry_insert'] = _resume_entry_insert
 
 
 def _require_distinct(ex, st, m):
